@@ -52,6 +52,9 @@ type Config struct {
 	CtxErrPoints bool `json:"ctx_err_points,omitempty"`
 	// EOFReadCostMs is the simulated cost of one Read that returns io.EOF.
 	EOFReadCostMs int `json:"eof_read_cost_ms"`
+	// SlowPeer: pauses of the peer of the first connection (a slow reader: writes block when its socket buffer is
+	// full, and go on when it reads again).
+	SlowPeer []Stall `json:"slow_peer,omitempty"`
 	// Replay, if non-nil, answers the choice stream. Lenient replay answers 0 when the tape is exhausted.
 	Replay  []Choice `json:"-"`
 	Lenient bool     `json:"-"`
